@@ -79,6 +79,7 @@ def py_value(a):
 class Check(PropCheck):
     id = 'C19'
     stream = 'C19'
+    extra_modules = ('AHP.Props.C19Code',)       # the code of conversions.py itself, interpreted in Lean, = the hand model
     exhaustive_in = ('quick', 'thorough')
     rule = ('every (element type, dot name) pair of the documented table (per-tag names of all 72 element types, the common '
             'names on an element type without per-tag names and on input/textarea/form/td [thorough: on every type], plus '
